@@ -136,6 +136,8 @@ def main(c):
     ]
     import drvlib
     drvlib.teardown(c)
+    n_adm = drvlib.admission(c, slots_only=True)
+    c.cov["evaluations"] += n_adm or 0
     if c.tier == "thorough":
         k = fsmlib.consts(2, [1, 2, 3], 90, [0, 3, 30, 65535])
         ns, nrec = trace_validate(c, k, nseq=200, length=300, name="t1")
